@@ -93,7 +93,7 @@ def _limits(cpu_s, as_bytes):
 
 
 class Run:
-    __slots__ = ("rc", "sig", "timeout", "out", "err", "cpu", "wall", "cmd")
+    __slots__ = ("rc", "sig", "timeout", "out", "err", "cpu", "wall", "cmd", "cpu_exceeded")
 
     def __repr__(self):
         return "Run(rc=%s sig=%s timeout=%s cpu=%.2f)" % (self.rc, self.sig, self.timeout, self.cpu)
@@ -121,11 +121,25 @@ def run_tool(exe, args, cwd, timeout=60, cpu_limit=None, env=None, max_out=4 << 
     r.timeout = False
     deadline = t0 + timeout
     ru = None
+    r.cpu_exceeded = False
+    tick = os.sysconf("SC_CLK_TCK")
+    polls = 0
     while True:
         pid, st, ru = os.wait4(p.pid, os.WNOHANG)
         if pid:
             break
-        if time.time() > deadline:
+        polls += 1
+        over = False
+        if cpu_limit and light and polls % 25 == 0:
+            # CPU time of the child so far (utime + stime of /proc/<pid>/stat): verdicts about termination use CPU time, not wall time
+            try:
+                with open("/proc/%d/stat" % p.pid) as fh:
+                    parts = fh.read().rsplit(")", 1)[1].split()
+                over = (int(parts[11]) + int(parts[12])) / tick > cpu_limit
+            except (OSError, IndexError, ValueError):
+                over = False
+        if over or time.time() > deadline:
+            r.cpu_exceeded = over
             r.timeout = True
             try:
                 if light:
@@ -267,7 +281,7 @@ def has_error(diags, others=()):
     return any(d.tag == "ERROR" for d in diags)
 
 
-def minimise_decls(text, still_fails, max_rounds=3):
+def minimise_decls(text, still_fails, max_rounds=3, lines=True):
     """greedy removal of whole top-level declarations (and then of single lines) while `still_fails(text)` holds"""
     import mutate_exp
     for _ in range(max_rounds):
@@ -283,6 +297,8 @@ def minimise_decls(text, still_fails, max_rounds=3):
                 changed = True
         if not changed:
             break
+    if not lines:
+        return text
     lines = text.split("\n")
     i = len(lines) - 1
     while i >= 0 and len(lines) < 400:
